@@ -183,7 +183,7 @@ func c08DockerCheck(c C08DockerCase) (r evid.Result) {
 	for i, lines := range c.Ctrs {
 		d.Containers = append(d.Containers, dl.Ctr(fmt.Sprintf("id%d", i), fmt.Sprintf("c%d", i), nil, lines))
 		for _, l := range lines {
-			if c.Query == `{} |= "#"` && !strings.Contains(l.Msg, "#") {
+			if strings.Contains(c.Query, `|= "#"`) && !strings.Contains(l.Msg, "#") {
 				continue
 			}
 			all = append(all, rec{l.TS, l.Msg})
@@ -287,7 +287,9 @@ func c08DockerGen(t *rapid.T) C08DockerCase {
 		total += m
 		c.Ctrs = append(c.Ctrs, lines)
 	}
-	c.Query = rapid.SampledFrom([]string{`{}`, `{} |= "#"`, `{} | keep container`, `{} | drop container_id | label_format name=container`}).Draw(t, "query")
+	c.Query = rapid.SampledFrom([]string{`{}`, `{} |= "#"`, `{} | keep container`, `{} | drop container_id | label_format name=container`,
+		// a filter behind a stage that rewrites the line or the labels: what may be cut off before the filter has run?
+		`{} | line_format "{{ __line__ }}" |= "#"`, `{} | decolorize |= "#"`, `{} | label_format name=container |= "#"`, `{} | keep container |= "#"`}).Draw(t, "query")
 	cands := []int{-1, 0, 1, 2, 3, total / 2, total - 1, total, total + 1}
 	if many {
 		cands = []int{-1, 0, 0, -100, 99, 100, 101, total - 1, total, total + 1}
